@@ -37,6 +37,9 @@ package surveyor
 //@
 //@ func (*survey).cancel$1
 //@   before call:close#1 assert !has(sock.surveys, s.id)
+//@   ghost prev = ctx.surv at call:Lock#1
+//@   before call:Unlock#1 assert prev == s ==> ctx.surv == nil
+//@   before call:Unlock#1 assert prev != s ==> ctx.surv == prev
 //@
 //@ func (*survey).start
 //@   at call:AfterFunc#1 assert expire > 0 && timer_d(result) == expire
@@ -91,3 +94,6 @@ package surveyor
 //@
 //@ func (*socket).AddPipe
 //@   before call:SetPrivate#1 assert cap(p.sendQ) == s.sendQLen
+//@
+//@ func (*context).SendMsg
+//@   before call:start#1 assert arg0 == c.recvQLen && arg1 == c.survExpire && held(s.Mutex)
